@@ -1385,3 +1385,71 @@ m('c07-mirror-reversed', ['C07', 'C15'],
   (Q, "            self._mirror = QuadScheme1D(1 - self.points, self.weights)",
    "            self._mirror = QuadScheme1D((1 - self.points)[::-1], self.weights[::-1])"),
   rule='R-mirror')
+CORPUS.append(dict(id='twin-dtik-helper-nested', props=['C01', 'C04', 'C12', 'C11'],
+                   edits=[(SL, DTIK_OLD, """        def F(z):
+            return FPI_INV * (z * np.exp(-x_sqr / z) +
+                              (x_sqr + z) * expi(-x_sqr / z))
+
+        if b > d:
+            result += F(b - d)
+        if b > c:
+            result -= F(b - c)
+        if a > c:
+            result += F(a - c)
+        if a > d:
+            result -= F(a - d)
+""")], rule=None, expect='noalarm'))
+CORPUS.append(dict(id='twin-dtik-helper-lambda', props=['C01', 'C04', 'C12'],
+                   edits=[(SL, DTIK_OLD, """        F = lambda z: FPI_INV * (z * np.exp(-x_sqr / z) +
+                                 (x_sqr + z) * expi(-x_sqr / z))
+        if b > d:
+            result += F(b - d)
+        if b > c:
+            result -= F(b - c)
+        if a > c:
+            result += F(a - c)
+        if a > d:
+            result -= F(a - d)
+""")], rule=None, expect='noalarm'))
+
+# ---- C19: memoised power, non-default refine calls -------------------------
+GRADING_CLS_OLD = """                if elem.h_t / K >= elem.h_x**sigma:
+                    marked_time.append(elem)
+                elif elem.h_x**sigma >= K * elem.h_t:
+                    marked_space.append(elem)
+                else:
+                    assert elem.h_t / K < elem.h_x**sigma < K * elem.h_t
+"""
+m('c19-memo-self', ['C19'],
+  (M, "        self.N_elements = len(roots)\n",
+   "        self.N_elements = len(roots)\n        self.h_x_pow = {}\n"),
+  (M, GRADING_CLS_OLD, """                p = self.h_x_pow.get(elem.h_x)
+                if p is None:
+                    p = self.h_x_pow[elem.h_x] = elem.h_x**sigma
+                if elem.h_t / K >= p:
+                    marked_time.append(elem)
+                elif p >= K * elem.h_t:
+                    marked_space.append(elem)
+"""), rule='R-memo')
+t('twin-c19-memo-keyed', ['C19'],
+  (M, "        self.N_elements = len(roots)\n",
+   "        self.N_elements = len(roots)\n        self.h_x_pow = {}\n"),
+  (M, GRADING_CLS_OLD, """                p = self.h_x_pow.get((elem.h_x, sigma))
+                if p is None:
+                    p = self.h_x_pow[(elem.h_x, sigma)] = elem.h_x**sigma
+                if elem.h_t / K >= p:
+                    marked_time.append(elem)
+                elif p >= K * elem.h_t:
+                    marked_space.append(elem)
+"""))
+t('twin-c19-memo-local', ['C19'],
+  (M, "        marked_time = True\n",
+   "        marked_time = True\n        pw = {}\n"),
+  (M, GRADING_CLS_OLD, """                p = pw.get(elem.h_x)
+                if p is None:
+                    p = pw[elem.h_x] = elem.h_x**sigma
+                if elem.h_t / K >= p:
+                    marked_time.append(elem)
+                elif p >= K * elem.h_t:
+                    marked_space.append(elem)
+"""))
